@@ -29,10 +29,14 @@ type Emu struct {
 	MultipleOfFloat      bool // multipleOf decided by float64 division and swag.IsFloat64AJSONInteger (relative tolerance 1e-9)
 	IntegerTolerance     bool // "integer" decided by swag.IsFloat64AJSONInteger on the float64 value
 	FormatRelaxesType    bool // a schema with "format" whose "type" has neither number nor integer accepts any string or array at the type check
+	// EmptyTupleLostUnderRef: go-openapi/spec's reference expander rebuilds what a $ref points to, and an EMPTY
+	// items list (a tuple of zero members) does not survive that: below a followed $ref, "items": [] counts as
+	// no items at all (additionalItems is then ignored).
+	EmptyTupleLostUnderRef bool
 }
 
 // Names of the switches, in the order used for subset enumeration.
-var EmuNames = []string{"null-skips-composition", "ignored-member-names", "multipleof-float-tolerance", "integer-type-tolerance", "format-relaxes-type"}
+var EmuNames = []string{"null-skips-composition", "ignored-member-names", "multipleof-float-tolerance", "integer-type-tolerance", "format-relaxes-type", "empty-tuple-lost-by-reference-expansion"}
 
 // EmuFromMask builds a switch set from a bit mask over EmuNames.
 func EmuFromMask(m int) Emu {
@@ -42,12 +46,14 @@ func EmuFromMask(m int) Emu {
 		MultipleOfFloat:      m&4 != 0,
 		IntegerTolerance:     m&8 != 0,
 		FormatRelaxesType:    m&16 != 0,
+
+		EmptyTupleLostUnderRef: m&32 != 0,
 	}
 }
 
 // Ctx is one evaluation context.
 type Ctx struct {
-	Root    any // root schema document for local $ref resolution
+	Root    any            // root schema document for local $ref resolution
 	Remotes map[string]any // remote documents by URL (without fragment)
 	Formats strfmt.Registry
 	Emu     Emu
@@ -59,6 +65,7 @@ type Ctx struct {
 	RequiredSatisfiedByDefault bool
 	// Unresolved is set when a $ref could not be resolved.
 	Unresolved bool
+	underRef   int // > 0 while evaluating what a followed $ref points to (and everything below it)
 	depth      int
 	// Fired records emulation switches which changed a decision.
 	Fired map[string]bool
@@ -275,7 +282,9 @@ func (c *Ctx) Valid(schema any, inst any) bool {
 		c.touch("$ref")
 		saved := c.Root
 		c.Root = newRoot
+		c.underRef++
 		v := c.Valid(t, inst)
+		c.underRef--
 		c.Root = saved
 		return v
 	}
@@ -606,6 +615,12 @@ func (c *Ctx) arrayOK(s map[string]any, inst []any) bool {
 		}
 	case []any:
 		c.touch("tuple")
+		if len(items) == 0 && c.Emu.EmptyTupleLostUnderRef && c.underRef > 0 {
+			if _, has := s["additionalItems"]; has && len(inst) > 0 {
+				c.fired("empty-tuple-lost-by-reference-expansion")
+			}
+			break
+		}
 		for i, e := range inst {
 			if i < len(items) {
 				if !c.Valid(items[i], e) {
